@@ -423,8 +423,10 @@ def check_dump_against_model(out, net, D, Pref, params, rows, R, mix, wit, varia
         sc = float(np.max(np.abs(Pref["A"][r])))
         rel = 1e-6 + (3.0 * sight / Rq if o.kind in g3gen.ANGULAR else 1e-6)
         ea = float(np.max(np.abs(A[r] - Pref["A"][r])))
-        out.ratio("f: jacobian dump vs model (%s)" % ("angular" if o.kind in g3gen.ANGULAR else "linear"), ea, rel * sc + 1e-8)
-        if ea > rel * sc + 1e-8 and ("jac", kind) not in seen:
+        # + the tilt of the station's normal with its position (1/R per metre = 1e-4 cc/mm), which gama-g3 neglects
+        tola = rel * sc + 1e-8 + (1.5 * float(g3gen.RAD_TO_CC) / 1000.0 / Rq if o.kind in g3gen.ANGULAR else 0.0)
+        out.ratio("f: jacobian dump vs model (%s)" % ("angular" if o.kind in g3gen.ANGULAR else "linear"), ea, tola)
+        if ea > tola and ("jac", kind) not in seen:
             seen.add(("jac", kind))
             j = int(np.argmax(np.abs(A[r] - Pref["A"][r])))
             out.violation("project-equations:jacobian:%s" % kind,
